@@ -225,6 +225,10 @@ def gen_history(rng, L):
             # keep the graph a forest with fan-in but without diamonds or cycles
             if o in anc(a) or a in anc(o) or a == o or (anc(a) | {a}) & (anc(o) | {o}) or len(par[a]) >= 2:
                 continue
+            # no diamonds either: no node at or below `a` may already reach `o` (or share an ancestor with it)
+            below = [w for w in range(n) if w == a or a in anc(w)]
+            if any((anc(w) | {w}) & (anc(o) | {o}) for w in below):
+                continue
             if any(a in anc(v) for v in range(n)) and False:
                 continue
             ops.append(("mixin", a, o)); par[a].append(o)
